@@ -30,6 +30,11 @@
 //! verdict compared by oracle 1 includes the KIND of a rejection (ambiguous vs unmatched); a difference in only that
 //! kind has its own signature class `overload|order-dependent-rejection-kind|..`.
 //!
+//! Argument expressions and declaration styles (phase 1c, section "phase 1c" below): every spelling of a literal of one
+//! class (radix × value around every bit position), every swizzle of a vector as an argument, and every placement of
+//! prototypes / definitions / the call for candidates with and without a trailing default parameter. Oracle there:
+//! "the verdict depends only on the set of visible candidates and the argument types" - equal types, equal verdict.
+//!
 //! Declaration forms: free functions (all spaces), methods of a struct called as `s.f(x)`, methods called
 //! unqualified from a sibling method (`Form`); the IR shows the resolved callee in all three.
 //!
@@ -1296,6 +1301,652 @@ fn process_set(env: &Env, set: &[Sig], tuples: &[Vec<A>], acc: &mut Acc) -> Vec<
 }
 
 // ---------------------------------------------------------------------------------------------
+// phase 1c: dimensions of the ARGUMENT EXPRESSION and of the DECLARATION that the alphabets above do not have
+//
+// The statement says the verdict of a call "depends only on the set of visible candidates and the argument types".
+// The spaces above write every argument in exactly one way (`0`, `0.0`, a local variable, a call of a helper) and
+// declare every candidate in exactly one way (one definition). Three seeded changes that were missed showed what that
+// leaves out; each became a dimension that is enumerated completely within a stated bound:
+//   * literal spelling: an untyped integer literal is an untyped integer literal whatever its radix and value (rssl's
+//     lexer gives every unsuffixed integer literal the token LiteralInt, every `u`-suffixed one LiteralIntUnsigned32,
+//     ..): all spellings of one literal class must give the verdict of the simplest spelling of that class;
+//   * swizzle arguments: `v.<swizzle>` for every swizzle of length 1-4 is an argument of type <kind><length>, an
+//     l-value when `v` is one and no component is named twice, a value otherwise (documented on
+//     ir::get_swizzle_value_type): the verdict must be the one of a plain variable / helper call of that type;
+//   * prototypes and trailing default parameters: a candidate is visible from its first declaration on, whether that
+//     is a prototype or a definition; the verdict of a call must be the same for every declaration style of every
+//     candidate (definition only; prototype + definition, the default value on the prototype or on both), every
+//     interleaving of the declarations and every position of the call after which all candidates are visible.
+
+#[derive(Clone, PartialEq, Eq, Debug, Hash)]
+enum XV {
+    Sel(Sig),
+    Amb,
+    NoMatch,
+}
+
+fn xv_show(v: &XV) -> String {
+    match v {
+        XV::Sel(s) => format!("selects {}", sig_show(s)),
+        XV::Amb => "is rejected as ambiguous".to_string(),
+        XV::NoMatch => "is rejected as unmatched".to_string(),
+    }
+}
+
+/// Err = (signature class, text)
+type XR = Result<XV, (String, String)>;
+
+/// Observe the sites `sites` (indices into `out`): `mk(site, k)` is the text of site `site` using the private names
+/// `f<k>` (overload set) and `t<k>` (test function whose last statement is the call). One unit, bisected on failure.
+fn resolve_texts(prefix: &str, mk: &dyn Fn(usize, usize) -> String, sites: &[usize], out: &mut [Option<XR>], acc: &mut Acc) {
+    if sites.is_empty() {
+        return;
+    }
+    let mut src = prefix.to_string();
+    for (k, s) in sites.iter().enumerate() {
+        src.push_str(&mk(*s, k));
+    }
+    acc.count("type_checks");
+    match type_check_unit(&src) {
+        Ok(Ok(m)) => {
+            let callee_of: Vec<usize> = (0..sites.len()).collect();
+            for (s, call) in sites.iter().zip(read_unit(&m, Form::Free, &callee_of)) {
+                out[*s] = Some(match call {
+                    Ok(sig) => Ok(XV::Sel(sig)),
+                    Err(t) => Err(("overload|ir-shape".to_string(), t)),
+                });
+            }
+        }
+        other => {
+            if sites.len() > 1 {
+                let mid = sites.len() / 2;
+                resolve_texts(prefix, mk, &sites[..mid], out, acc);
+                resolve_texts(prefix, mk, &sites[mid..], out, acc);
+                return;
+            }
+            out[sites[0]] = Some(match other {
+                Ok(Err(UnitErr::Ambiguous)) => Ok(XV::Amb),
+                Ok(Err(UnitErr::NoMatch)) => Ok(XV::NoMatch),
+                Ok(Err(UnitErr::Other(name, text))) => Err((format!("overload|unexpected-error|{}", name), text)),
+                Err(p) => Err((p.signature(), format!("type_check panicked: {}", p.message))),
+                Ok(Ok(_)) => unreachable!(),
+            });
+        }
+    }
+}
+
+/// resolve `all` sites: the reference site first and alone; when it is accepted the others are batched, else each alone
+fn resolve_with_reference(prefix: &str, mk: &dyn Fn(usize, usize) -> String, n: usize, expect_accept: Option<bool>, acc: &mut Acc) -> Vec<Option<XR>> {
+    let mut out: Vec<Option<XR>> = vec![None; n];
+    if n == 0 {
+        return out;
+    }
+    let (first, accept) = match expect_accept {
+        Some(a) => (0, a),
+        None => {
+            resolve_texts(prefix, mk, &[0], &mut out, acc);
+            (1, matches!(out[0], Some(Ok(XV::Sel(_)))))
+        }
+    };
+    let rest: Vec<usize> = (first..n).collect();
+    if accept {
+        for chunk in rest.chunks(64) {
+            resolve_texts(prefix, mk, chunk, &mut out, acc);
+        }
+    } else {
+        for s in rest {
+            resolve_texts(prefix, mk, &[s], &mut out, acc);
+        }
+    }
+    out
+}
+
+fn cands_text(set: &[Sig]) -> String {
+    set.iter().map(|s| s.iter().map(|p| p_show(*p)).collect::<Vec<_>>().join(",")).collect::<Vec<_>>().join(" | ")
+}
+
+fn parse_cands(c: &str) -> Option<Vec<Sig>> {
+    c.split('|').map(|cand| cand.split(',').map(parse_param).collect::<Option<Sig>>()).collect()
+}
+
+// ---- literal spellings
+
+struct LitClass {
+    name: &'static str,
+    /// simplest first; the first spelling is the reference
+    spellings: Vec<String>,
+}
+
+/// Integer values: 0, and 2^k - 1, 2^k, 2^k + 1 around every bit position k = 1..=32 (every value up to 9, then every
+/// power-of-two boundary up to the 33-bit value 2^32 + 1). Radices: decimal, hexadecimal, octal (quick: hexadecimal for
+/// all values, decimal and octal for the boundaries k = 31, 32). Float literals: a handful of mantissa / exponent forms.
+fn lit_classes(full: bool) -> Vec<LitClass> {
+    let mut values: Vec<(u64, bool)> = vec![(0, true)];
+    for k in 1..=32u32 {
+        for v in [(1u64 << k) - 1, 1u64 << k, (1u64 << k) + 1] {
+            if !values.iter().any(|(x, _)| *x == v) {
+                values.push((v, k >= 31));
+            }
+        }
+    }
+    values.sort();
+    let spell = |suffix: &str, max: u64| -> Vec<String> {
+        let mut out: Vec<String> = Vec::new();
+        for (v, boundary) in &values {
+            if *v > max {
+                continue;
+            }
+            if full || *boundary {
+                out.push(format!("{}{}", v, suffix));
+            }
+            if *v > 0 {
+                out.push(format!("0x{:X}{}", v, suffix));
+                if full || *boundary {
+                    out.push(format!("0{:o}{}", v, suffix));
+                }
+            }
+        }
+        out
+    };
+    let strs = |v: &[&str]| -> Vec<String> { v.iter().map(|s| s.to_string()).collect() };
+    vec![
+        LitClass { name: "int-unsuffixed", spellings: spell("", u64::MAX) },
+        LitClass { name: "int-u-suffix", spellings: spell("u", u32::MAX as u64) },
+        LitClass { name: "float-unsuffixed", spellings: strs(&["0.0", "1.0", "0.5", "1e0", "1.5e10", "2.5e-3"]) },
+        LitClass { name: "float-f-suffix", spellings: strs(&["0.0f", "1.0f", "0.5f", "1e0f", "1.5e10f", "2.5e-3f"]) },
+    ]
+}
+
+/// one candidate set × every spelling of one literal class × every declaration order: one verdict
+fn check_spellings(set: &[Sig], class: &LitClass, acc: &mut Acc) {
+    let perms = perms_of(set.len());
+    let np = perms.len();
+    let n = class.spellings.len() * np;
+    let mk = |site: usize, k: usize| -> String {
+        let mut s = String::new();
+        emit_decls(&mut s, k, set, &perms[site % np], false, None);
+        s.push_str(&format!("void t{}() {{ f{}({}); }}\n", k, k, class.spellings[site / np]));
+        s
+    };
+    let out = resolve_with_reference("", &mk, n, None, acc);
+    acc.evals += n as u64;
+    let replay = format!("kind: spelling\nclass: {}\ncands: {}\n", class.name, cands_text(set));
+    let reference = match &out[0] {
+        Some(Ok(v)) => v.clone(),
+        Some(Err((sig, text))) => {
+            acc.violation(Violation { signature: format!("{}|literal-spelling", sig), detail: format!("{} — program:\n{}", text, mk(0, 0)), replay });
+            return;
+        }
+        None => return,
+    };
+    acc.count(match reference {
+        XV::Sel(_) => "sites_selected",
+        XV::Amb => "sites_ambiguous",
+        XV::NoMatch => "sites_unmatched",
+    });
+    if let XV::Sel(sig) = &reference {
+        acc.outcome(&("literal-class", class.name, sig));
+    }
+    for site in 1..n {
+        match &out[site] {
+            Some(Ok(v)) if *v == reference => {}
+            Some(Ok(v)) => {
+                acc.violation(Violation {
+                    signature: format!("overload|literal-spelling-dependent|{}", class.name),
+                    detail: format!(
+                        "candidates [{}]: with the {} literal spelled `{}` the call {}, spelled `{}` (declared as [{}]) it {} — both are literals of the same type; program:\n{}",
+                        set_show(set),
+                        class.name,
+                        class.spellings[0],
+                        xv_show(&reference),
+                        class.spellings[site / np],
+                        layout_show(set, &perms[site % np]),
+                        xv_show(v),
+                        mk(site, 0)
+                    ),
+                    replay,
+                });
+                return;
+            }
+            Some(Err((sig, text))) => {
+                acc.violation(Violation { signature: format!("{}|literal-spelling", sig), detail: format!("{} — program:\n{}", text, mk(site, 0)), replay });
+                return;
+            }
+            None => {}
+        }
+    }
+}
+
+// ---- swizzle arguments
+
+/// all words of length `len` over the first `dim` letters of xyzw, lexicographic
+fn swizzles(dim: u8, len: usize) -> Vec<String> {
+    let letters = ['x', 'y', 'z', 'w'];
+    let mut out = Vec::new();
+    let total = (dim as u64).pow(len as u32);
+    let mut d = Vec::new();
+    for idx in 0..total {
+        crate::util::decode(idx, &vec![dim as u64; len], &mut d);
+        // decode is little-endian or big-endian: either way every word appears once
+        out.push(d.iter().map(|i| letters[*i as usize]).collect());
+    }
+    out
+}
+
+fn has_repeat(swz: &str) -> bool {
+    let b = swz.as_bytes();
+    (0..b.len()).any(|i| (0..i).any(|j| b[i] == b[j]))
+}
+
+/// verdict of a one-parameter set of 1 or 2 candidates for the plain argument `a`, from the measured tables
+fn plain_reference(base: &Base, set: &[Sig], a: A) -> Option<XV> {
+    match set.len() {
+        1 => base.viable(a, set[0][0]).map(|v| if v { XV::Sel(set[0].clone()) } else { XV::NoMatch }),
+        2 => {
+            let (x, y) = (set[0][0], set[1][0]);
+            let (lo, hi) = if x < y { (x, y) } else { (y, x) };
+            match base.pref_entry(a, lo, hi) {
+                E_FIRST => Some(XV::Sel(vec![lo])),
+                E_SECOND => Some(XV::Sel(vec![hi])),
+                E_AMB => Some(XV::Amb),
+                E_NOMATCH => Some(XV::NoMatch),
+                _ => None,
+            }
+        }
+        _ => None,
+    }
+}
+
+/// the parameter alphabet used with swizzles of length `len` of a vector of scalar kind `kind`: that kind and one
+/// other kind (float for the integer kinds and bool, int for the floating kinds) × widths {len, len-1} × {in, out}
+fn swizzle_param_alphabet(kind: usize, len: usize) -> Vec<P> {
+    let other = if kind >= 3 { 1 } else { 4 };
+    let mut dims = vec![len as u8];
+    if len > 1 {
+        dims.push(len as u8 - 1);
+    }
+    let mut out = Vec::new();
+    for k in [kind, other] {
+        for d in &dims {
+            out.push(p_code(ty_of(k, *d), false));
+            out.push(p_code(ty_of(k, *d), true));
+        }
+    }
+    out.sort();
+    out
+}
+
+/// One one-parameter candidate set (1 or 2 candidates) × every swizzle of length `len` of a `kind``dim` vector (a local
+/// variable when `lbase`, else the result of a helper call) × every declaration order: the verdict of the plain
+/// argument of the same type and value category.
+fn check_swizzles(base: &Base, set: &[Sig], kind: usize, dim: u8, lbase: bool, len: usize, acc: &mut Acc) {
+    let vec_ty = ty_of(kind, dim);
+    let res_ty = ty_of(kind, len as u8);
+    let swzs = swizzles(dim, len);
+    let perms = perms_of(set.len());
+    let np = perms.len();
+    for repeated in [false, true] {
+        let group: Vec<&String> = swzs.iter().filter(|s| has_repeat(s) == repeated).collect();
+        if group.is_empty() {
+            continue;
+        }
+        let a: A = if lbase && !repeated { res_ty } else { res_ty + 24 };
+        let reference = match plain_reference(base, set, a) {
+            Some(r) => r,
+            None => {
+                acc.count("swizzle_reference_unknown");
+                continue;
+            }
+        };
+        let n = group.len() * np;
+        let mk = |site: usize, k: usize| -> String {
+            let mut s = String::new();
+            emit_decls(&mut s, k, set, &perms[site % np], false, None);
+            if lbase {
+                s.push_str(&format!("void t{}() {{ {} v; f{}(v.{}); }}\n", k, ty_name(vec_ty), k, group[site / np]));
+            } else {
+                s.push_str(&format!("void t{}() {{ f{}(r_{}().{}); }}\n", k, k, ty_name(vec_ty), group[site / np]));
+            }
+            s
+        };
+        let prefix = if lbase { String::new() } else { unit_prefix(1 << vec_ty, 0) };
+        let out = resolve_with_reference(&prefix, &mk, n, Some(matches!(reference, XV::Sel(_))), acc);
+        acc.evals += n as u64;
+        acc.count(match reference {
+            XV::Sel(_) => "sites_selected",
+            XV::Amb => "sites_ambiguous",
+            XV::NoMatch => "sites_unmatched",
+        });
+        if let XV::Sel(sig) = &reference {
+            acc.outcome(&("swizzle", lbase, repeated, res_ty, sig));
+        }
+        let replay = format!("kind: swizzle\nbase: {}:{}\nlen: {}\ncands: {}\n", if lbase { "L" } else { "R" }, ty_name(vec_ty), len, cands_text(set));
+        let class = format!("{}|{}", if lbase { "variable" } else { "value" }, if repeated { "repeated-component" } else { "distinct-components" });
+        for site in 0..n {
+            match &out[site] {
+                Some(Ok(v)) if *v == reference => {}
+                Some(Ok(v)) => {
+                    acc.violation(Violation {
+                        signature: format!("overload|swizzle-argument-differs-from-plain|{}", class),
+                        detail: format!(
+                            "candidates [{}]: the argument {} (a plain {} of type {}): the call {}; the swizzle `{}.{}` has the same type and value category but the call (declared as [{}]) {} — program:\n{}",
+                            set_show(set),
+                            a_show(a),
+                            if a_lvalue(a) { "variable" } else { "value" },
+                            ty_name(res_ty),
+                            xv_show(&reference),
+                            if lbase { "v" } else { "r()" },
+                            group[site / np],
+                            layout_show(set, &perms[site % np]),
+                            xv_show(v),
+                            format!("{}{}", prefix, mk(site, 0))
+                        ),
+                        replay: replay.clone(),
+                    });
+                    break;
+                }
+                Some(Err((sig, text))) => {
+                    acc.violation(Violation { signature: format!("{}|swizzle-argument", sig), detail: format!("{} — program:\n{}{}", text, prefix, mk(site, 0)), replay: replay.clone() });
+                    break;
+                }
+                None => {}
+            }
+        }
+    }
+}
+
+// ---- prototypes and trailing default parameters
+
+/// a candidate with `in` parameters whose last parameter may have a default value
+#[derive(Clone, PartialEq, Eq, Debug, Hash)]
+struct DC {
+    params: Sig,
+    default_last: bool,
+}
+
+/// how one candidate is declared
+#[derive(Copy, Clone, PartialEq, Eq, Debug)]
+enum Style {
+    /// one definition (carrying the default value)
+    Def,
+    /// prototype (carrying the default value), later the definition without it
+    ProtoDef,
+    /// prototype and definition both carry the default value (only for candidates with one)
+    ProtoDefBoth,
+}
+
+#[derive(Copy, Clone, PartialEq, Eq, Debug)]
+enum Item {
+    Proto(usize),
+    Def(usize),
+}
+
+fn dc_show(c: &DC) -> String {
+    let n = c.params.len();
+    format!("f({})", c.params.iter().enumerate().map(|(i, p)| format!("{}{}", p_show(*p), if c.default_last && i + 1 == n { " = <default>" } else { "" })).collect::<Vec<_>>().join(", "))
+}
+
+fn dcs_text(set: &[DC]) -> String {
+    set.iter().map(|c| format!("{}{}", c.params.iter().map(|p| p_show(*p)).collect::<Vec<_>>().join(","), if c.default_last { "=" } else { "" })).collect::<Vec<_>>().join(" | ")
+}
+
+fn parse_dcs(c: &str) -> Option<Vec<DC>> {
+    c.split('|')
+        .map(|cand| {
+            let cand = cand.trim();
+            let (body, d) = match cand.strip_suffix('=') {
+                Some(b) => (b, true),
+                None => (cand, false),
+            };
+            body.split(',').map(parse_param).collect::<Option<Sig>>().map(|params| DC { params, default_last: d })
+        })
+        .collect()
+}
+
+fn emit_item(s: &mut String, set: &[DC], styles: &[Style], item: Item) {
+    let (ci, is_def) = match item {
+        Item::Proto(c) => (c, false),
+        Item::Def(c) => (c, true),
+    };
+    let c = &set[ci];
+    let with_default = c.default_last && (!is_def || styles[ci] != Style::ProtoDef);
+    s.push_str("void f0(");
+    let n = c.params.len();
+    for (i, p) in c.params.iter().enumerate() {
+        if i > 0 {
+            s.push_str(", ");
+        }
+        s.push_str(&format!("{} p{}", p_show(*p), i));
+        if with_default && i + 1 == n {
+            // a typed literal of the parameter's scalar kind
+            s.push_str(match p_ty(*p) / 4 {
+                0 => " = true",
+                1 => " = 1",
+                2 => " = 1u",
+                3 => " = 1.0h",
+                4 => " = 1.0f",
+                _ => " = 1.0L",
+            });
+        }
+    }
+    s.push_str(if is_def { ") {}\n" } else { ");\n" });
+}
+
+fn items_show(set: &[DC], styles: &[Style], items: &[Item], pos: usize) -> String {
+    let mut parts: Vec<String> = Vec::new();
+    for (i, it) in items.iter().enumerate() {
+        let mut s = String::new();
+        emit_item(&mut s, set, styles, *it);
+        parts.push(s.trim().replace("void f0", "f").replace(" {}", " {..}"));
+        if i == pos {
+            parts.push("<CALL>".to_string());
+        }
+    }
+    parts.join(" ")
+}
+
+/// One candidate set × every declaration style of every candidate × every interleaving of the declarations × every
+/// call position after which all candidates are visible × every argument tuple: one verdict per argument tuple.
+fn check_protos(set: &[DC], tuples: &[Vec<A>], acc: &mut Acc) {
+    let n = set.len();
+    let any_default = set.iter().any(|c| c.default_last);
+    let replay = format!("kind: proto\ncands: {}\n", dcs_text(set));
+    // style combinations, all-Def first
+    let mut combos: Vec<Vec<Style>> = vec![Vec::new()];
+    for c in set {
+        let opts: &[Style] = if c.default_last { &[Style::Def, Style::ProtoDef, Style::ProtoDefBoth] } else { &[Style::Def, Style::ProtoDef] };
+        combos = combos.iter().flat_map(|pre| opts.iter().map(move |o| pre.iter().copied().chain([*o]).collect::<Vec<_>>())).collect();
+    }
+    let mut reference: Vec<Option<(XV, String)>> = vec![None; tuples.len()];
+    let mut reported = vec![false; tuples.len()];
+    let prefix = unit_prefix(tuples.iter().flatten().filter(|a| (24..48).contains(*a)).fold(0u32, |m, a| m | 1 << (*a - 24)), 0);
+    for styles in &combos {
+        let mut items: Vec<Item> = Vec::new();
+        for (ci, st) in styles.iter().enumerate() {
+            if *st != Style::Def {
+                items.push(Item::Proto(ci));
+            }
+            items.push(Item::Def(ci));
+        }
+        for perm in perms_of(items.len()) {
+            let order: Vec<Item> = perm.iter().map(|i| items[*i as usize]).collect();
+            // a prototype precedes the definition of its candidate
+            let pos_of = |it: Item| order.iter().position(|x| *x == it).unwrap();
+            if (0..n).any(|c| styles[c] != Style::Def && pos_of(Item::Proto(c)) > pos_of(Item::Def(c))) {
+                continue;
+            }
+            // call positions: after item `pos`, when every candidate has been declared
+            let first_all_visible = (0..n)
+                .map(|c| order.iter().position(|x| matches!(x, Item::Proto(k) | Item::Def(k) if *k == c)).unwrap())
+                .max()
+                .unwrap();
+            let positions: Vec<usize> = (first_all_visible..order.len()).collect();
+            let nsites = positions.len() * tuples.len();
+            let unit = |sites: &[usize]| -> String {
+                let mut s = prefix.clone();
+                for (i, it) in order.iter().enumerate() {
+                    emit_item(&mut s, set, styles, *it);
+                    for (k, site) in sites.iter().enumerate() {
+                        if positions[site / tuples.len()] == i {
+                            let mut helpers = 0u32;
+                            // the callee is always f0: emit_test names it by its fourth argument
+                            let mut t = String::new();
+                            emit_test(&mut t, &mut helpers, Form::Free, k, 0, &tuples[site % tuples.len()], None);
+                            s.push_str(&t);
+                        }
+                    }
+                }
+                s
+            };
+            let mut out: Vec<Option<XR>> = vec![None; nsites];
+            // sites whose reference verdict is a rejection are compiled alone, the others share the declarations
+            let mut batch: Vec<usize> = Vec::new();
+            let mut alone: Vec<usize> = Vec::new();
+            for site in 0..nsites {
+                match &reference[site % tuples.len()] {
+                    Some((XV::Sel(_), _)) => batch.push(site),
+                    _ => alone.push(site),
+                }
+            }
+            resolve_proto_sites(&unit, &batch, &mut out, acc);
+            for s in alone {
+                resolve_proto_sites(&unit, &[s], &mut out, acc);
+            }
+            acc.evals += nsites as u64;
+            for site in 0..nsites {
+                let ti = site % tuples.len();
+                let pos = positions[site / tuples.len()];
+                let args = &tuples[ti];
+                let here = || items_show(set, styles, &order, pos);
+                match &out[site] {
+                    Some(Ok(v)) => {
+                        // exact match: the unique candidate with exactly the argument types
+                        if !reported[ti] {
+                            let exact: Vec<&DC> = set.iter().filter(|c| c.params.len() == args.len() && c.params.iter().zip(args).all(|(p, a)| a_ty(*a) == Some(p_ty(*p)))).collect();
+                            // a longer candidate whose leading parameters equal the argument types and whose remaining parameter is
+                            // defaulted matches "exactly" as well in one reading: that corner is left out of the exact-match oracle
+                            let twin = set.iter().any(|c| c.default_last && c.params.len() == args.len() + 1 && c.params.iter().zip(args).all(|(p, a)| a_ty(*a) == Some(p_ty(*p))));
+                            if exact.len() == 1 && twin {
+                                acc.count("exact_match_excluded_default_twin");
+                            }
+                            if exact.len() == 1 && !twin && *v != XV::Sel(exact[0].params.clone()) {
+                                reported[ti] = true;
+                                acc.violation(Violation {
+                                    signature: "overload|exact-match-not-selected|prototype-or-default".into(),
+                                    detail: format!("args ({}): {} matches the argument types exactly but declared as [{}] the call {} — program:\n{}", args_show(args), dc_show(exact[0]), here(), xv_show(v), unit(&[site])),
+                                    replay: replay.clone(),
+                                });
+                                continue;
+                            }
+                        }
+                        match &reference[ti] {
+                            None => {
+                                acc.count(match v {
+                                    XV::Sel(_) => "sites_selected",
+                                    XV::Amb => "sites_ambiguous",
+                                    XV::NoMatch => "sites_unmatched",
+                                });
+                                if let XV::Sel(sig) = v {
+                                    acc.outcome(&("proto", any_default, args, sig));
+                                }
+                                reference[ti] = Some((v.clone(), here()));
+                            }
+                            Some((r, _)) if r == v => {}
+                            Some((r, rhere)) => {
+                                if !reported[ti] {
+                                    reported[ti] = true;
+                                    acc.violation(Violation {
+                                        signature: format!("overload|declaration-placement-dependent|{}", if any_default { "default-parameter" } else { "no-default-parameter" }),
+                                        detail: format!(
+                                            "candidates [{}], args ({}): declared as [{}] the call {}, declared as [{}] it {} — the same candidates are visible at both calls; program (second):\n{}",
+                                            set.iter().map(dc_show).collect::<Vec<_>>().join(" "),
+                                            args_show(args),
+                                            rhere,
+                                            xv_show(r),
+                                            here(),
+                                            xv_show(v),
+                                            unit(&[site])
+                                        ),
+                                        replay: replay.clone(),
+                                    });
+                                }
+                            }
+                        }
+                    }
+                    Some(Err((sig, text))) => {
+                        if !reported[ti] {
+                            reported[ti] = true;
+                            acc.violation(Violation { signature: format!("{}|prototype-or-default", sig), detail: format!("{} — program:\n{}", text, unit(&[site])), replay: replay.clone() });
+                        }
+                    }
+                    None => {}
+                }
+            }
+        }
+    }
+}
+
+fn resolve_proto_sites(unit: &dyn Fn(&[usize]) -> String, sites: &[usize], out: &mut [Option<XR>], acc: &mut Acc) {
+    if sites.is_empty() {
+        return;
+    }
+    let src = unit(sites);
+    acc.count("type_checks");
+    match type_check_unit(&src) {
+        Ok(Ok(m)) => {
+            let callee_of = vec![0usize; sites.len()];
+            for (s, call) in sites.iter().zip(read_unit(&m, Form::Free, &callee_of)) {
+                out[*s] = Some(match call {
+                    Ok(sig) => Ok(XV::Sel(sig)),
+                    Err(t) => Err(("overload|ir-shape".to_string(), t)),
+                });
+            }
+        }
+        other => {
+            if sites.len() > 1 {
+                let mid = sites.len() / 2;
+                resolve_proto_sites(unit, &sites[..mid], out, acc);
+                resolve_proto_sites(unit, &sites[mid..], out, acc);
+                return;
+            }
+            out[sites[0]] = Some(match other {
+                Ok(Err(UnitErr::Ambiguous)) => Ok(XV::Amb),
+                Ok(Err(UnitErr::NoMatch)) => Ok(XV::NoMatch),
+                Ok(Err(UnitErr::Other(name, text))) => Err((format!("overload|unexpected-error|{}", name), text)),
+                Err(p) => Err((p.signature(), format!("type_check panicked: {}", p.message))),
+                Ok(Ok(_)) => unreachable!(),
+            });
+        }
+    }
+}
+
+/// the candidate shapes of the prototype space: 1 and 2 `in` parameters over `kinds`, the last of two optionally defaulted
+fn proto_shapes(kinds: &[usize]) -> Vec<DC> {
+    let tys: Vec<P> = kinds.iter().map(|k| p_code(ty_of(*k, 1), false)).collect();
+    let mut out: Vec<DC> = Vec::new();
+    for s in sigs_over(&tys, 1) {
+        out.push(DC { params: s, default_last: false });
+    }
+    for s in sigs_over(&tys, 2) {
+        out.push(DC { params: s.clone(), default_last: false });
+        out.push(DC { params: s, default_last: true });
+    }
+    out
+}
+
+fn proto_tuples(kinds: &[usize], rvalues: bool) -> Vec<Vec<A>> {
+    let mut alpha: Vec<A> = kinds.iter().map(|k| ty_of(*k, 1)).collect();
+    if rvalues {
+        alpha.extend(kinds.iter().map(|k| ty_of(*k, 1) + 24));
+        alpha.push(A_LIT_FLOAT);
+    }
+    alpha.push(A_LIT_INT);
+    let mut t = tuples_over(&alpha, 1);
+    t.extend(tuples_over(&alpha, 2));
+    t
+}
+
+// ---------------------------------------------------------------------------------------------
 // spaces
 
 fn all_args_1p() -> Vec<Vec<A>> {
@@ -1425,6 +2076,78 @@ pub fn run(ctx: &Ctx) -> i32 {
         let mut acc = Acc::default();
         check_axioms(&base, &mut acc);
         rep.acc.merge(acc);
+    }
+
+    // ---- phase 1c: literal spellings, swizzle arguments, prototypes / default parameters (see the section above)
+    {
+        let in_ty = |k: usize, d: u8| -> Sig { vec![p_code(ty_of(k, d), false)] };
+        // (a) literal spellings: every single `in` candidate over the 24 types and every pair over the 6 scalar kinds ×
+        // widths {1, 2} (thorough: every pair over the 24 types) × 4 literal classes × every spelling × both orders
+        let classes = lit_classes(!ctx.quick());
+        let mut lit_sets: Vec<Vec<Sig>> = (0..NTY as u8).map(|t| vec![vec![p_code(t, false)]]).collect();
+        let pair_types: Vec<Sig> = if ctx.quick() { (0..6).flat_map(|k| [in_ty(k, 1), in_ty(k, 2)]).collect() } else { (0..NTY as u8).map(|t| vec![p_code(t, false)]).collect() };
+        for s in subsets(pair_types.len(), 2) {
+            lit_sets.push(s.iter().map(|i| pair_types[*i].clone()).collect());
+        }
+        let r = run_par(ctx, (lit_sets.len() * classes.len()) as u64, 1, |idx, acc| {
+            let set = &lit_sets[idx as usize / classes.len()];
+            check_spellings(set, &classes[idx as usize % classes.len()], acc);
+        });
+        absorb(ctx, &mut rep, "p1_literal_spellings", r);
+        rep.cov("literal_spellings", Json::Arr(classes.iter().map(|c| format!("{}: {} spellings ({} .. {})", c.name, c.spellings.len(), c.spellings[0], c.spellings[c.spellings.len() - 1]).into()).collect()));
+
+        // (b) swizzle arguments: every swizzle of length 1-4 of a 4-vector (340; thorough: also of 2- and 3-vectors) of kind
+        // float (thorough: int, uint, float, double), a local variable (thorough: also the result of a call) × every single
+        // candidate and pair of candidates over the 8 parameter types of `swizzle_param_alphabet` × both orders
+        let mut swz_items: Vec<(usize, u8, bool, usize, Vec<Sig>)> = Vec::new();
+        for kind in ctx.pick(vec![4usize], vec![4usize, 1, 2, 5]) {
+            for dim in ctx.pick(vec![4u8], vec![4u8, 3, 2]) {
+                for lbase in ctx.pick(vec![true], vec![true, false]) {
+                    for len in 1..=4usize {
+                        let alpha = swizzle_param_alphabet(kind, len);
+                        for p in &alpha {
+                            swz_items.push((kind, dim, lbase, len, vec![vec![*p]]));
+                        }
+                        for s in subsets(alpha.len(), 2) {
+                            swz_items.push((kind, dim, lbase, len, s.iter().map(|i| vec![alpha[*i]]).collect()));
+                        }
+                    }
+                }
+            }
+        }
+        if pairs_done {
+            let r = run_par(ctx, swz_items.len() as u64, 1, |idx, acc| {
+                let (kind, dim, lbase, len, set) = &swz_items[idx as usize];
+                check_swizzles(&base, set, *kind, *dim, *lbase, *len, acc);
+            });
+            absorb(ctx, &mut rep, "p1_swizzle_arguments", r);
+        }
+
+        // (c) prototypes and trailing default parameters: every set of 1 and 2 candidates (thorough: also 3 over {int, float})
+        // out of the shapes f(T), f(T, T), f(T, T = default) over {int, float} (thorough for 1-2 candidates: {int, float,
+        // double}) × every declaration style × every interleaving × every call position × argument tuples of 1 and 2
+        // l-values and the int literal (thorough, 1-2 candidates: also r-values and the float literal)
+        let mut proto_sets: Vec<(Vec<DC>, usize)> = Vec::new();
+        let families: Vec<(Vec<usize>, Vec<usize>)> = ctx.pick(vec![(vec![1usize, 4], vec![1usize, 2])], vec![(vec![1usize, 4, 5], vec![1usize, 2]), (vec![1usize, 4], vec![3usize])]);
+        let proto_tuple_sets: Vec<Vec<Vec<A>>> = families.iter().map(|(kinds, sizes)| proto_tuples(kinds, !ctx.quick() && !sizes.contains(&3))).collect();
+        for (fi, (kinds, sizes)) in families.iter().enumerate() {
+            let shapes = proto_shapes(kinds);
+            for k in sizes {
+                for s in subsets(shapes.len(), *k) {
+                    let set: Vec<DC> = s.iter().map(|i| shapes[*i].clone()).collect();
+                    // two candidates with the same parameter types are one function
+                    if (0..set.len()).any(|i| (0..i).any(|j| set[i].params == set[j].params)) {
+                        continue;
+                    }
+                    proto_sets.push((set, fi));
+                }
+            }
+        }
+        let r = run_par(ctx, proto_sets.len() as u64, 1, |idx, acc| {
+            let (set, fi) = &proto_sets[idx as usize];
+            check_protos(set, &proto_tuple_sets[*fi], acc);
+        });
+        absorb(ctx, &mut rep, "prototype_default_sets", r);
     }
 
     // ---- phase 1b: sets of 3-5 MULTI-parameter candidates of MIXED VIABILITY. A candidate can fail to take the arguments
@@ -1759,7 +2482,7 @@ pub fn run(ctx: &Ctx) -> i32 {
         .map(|(_, p)| p)
         .collect();
     if ctx.quick() {
-        rep.caps_hit.push("quick tier: 2-parameter pairs use dims {1,2}, all scalar-only pairs and every 28th other pair; 2-parameter triples every 32nd; 2-parameter method pairs every 16th; method triples, method-internal and interleaved free sets over the 6 scalar types only; 3-parameter pairs over 4 scalar types, every 10th pair (thorough enumerates all); mixed-viability sets: in/out triples over {int,float} only, sets of 4-5 over 6 signatures, vector widths {2,3}, mixed-arity triples with two 2-parameter candidates, 3-parameter triples with `out` in the first position only, method triples over 6 signatures (thorough: 3 scalar families of 36 signatures, 9 signatures, widths {2,3,4}, all 364 mixed-arity triples, all 27 three-parameter signatures, 16 method signatures)".into());
+        rep.caps_hit.push("quick tier: literal spellings in hexadecimal for every value and in decimal/octal for k >= 31, pairs over widths {1,2}; swizzles of a float4 variable only; prototype sets of 1-2 candidates over {int,float} (thorough: all three radices, all 24 types, 4 kinds × 3 widths × variable/value, 3 candidates and {int,float,double}); 2-parameter pairs use dims {1,2}, all scalar-only pairs and every 28th other pair; 2-parameter triples every 32nd; 2-parameter method pairs every 16th; method triples, method-internal and interleaved free sets over the 6 scalar types only; 3-parameter pairs over 4 scalar types, every 10th pair (thorough enumerates all); mixed-viability sets: in/out triples over {int,float} only, sets of 4-5 over 6 signatures, vector widths {2,3}, mixed-arity triples with two 2-parameter candidates, 3-parameter triples with `out` in the first position only, method triples over 6 signatures (thorough: 3 scalar families of 36 signatures, 9 signatures, widths {2,3,4}, all 364 mixed-arity triples, all 27 three-parameter signatures, 16 method signatures)".into());
     }
     let r = run_par(ctx, pairs2.len() as u64, 1, |idx, acc| {
         let (i, j) = pairs2[idx as usize];
@@ -1868,6 +2591,7 @@ pub fn run(ctx: &Ctx) -> i32 {
     rep.cov("declaration_forms", Json::Arr(vec!["free".into(), "method".into(), "method-internal".into(), "free-interleaved".into()]));
     rep.cov("layouts_per_set_with_gap", Json::Str("n! permutations × (n+1) positions of one differently named declaration: 6 for pairs, 24 for triples, 120 for sets of 4".into()));
     rep.cov("mixed_viability_kinds", Json::Arr(vec!["out parameter of another type".into(), "out parameter bound to an r-value or literal".into(), "vector would have to be widened".into(), "another number of parameters".into()]));
+    rep.cov("argument_expression_dimensions", Json::Arr(vec!["literal spelling (radix, value, suffix class)".into(), "swizzle of a vector (every word of length 1-4)".into(), "prototype/definition/call placement with trailing default parameters".into()]));
     rep.cov("p3_signatures", Json::Int(sigs3.len() as i64));
     rep.cov("p3_argument_tuples", Json::Int(tuples3.len() as i64));
     rep.assumptions = vec![
@@ -1878,7 +2602,8 @@ pub fn run(ctx: &Ctx) -> i32 {
         "oracle 2 applies when exactly one candidate has parameter types equal to the argument types with a fitting value category; a set containing both f(T) and f(out T) called with an l-value of type T has two such candidates (rssl rejects the call as ambiguous) and is counted in exact_match_excluded_in_out_twins instead".into(),
         "oracle 3 is the property's wording only: a selected candidate must not be dominated; rejecting a call although one candidate dominates all others, and reporting 'no match' (instead of 'ambiguous') when several viable candidates each win one argument, are counted as info_* and not treated as violations".into(),
         "mixed viability (phase 1b): candidate sets in which some candidates can not take the arguments, every permutation, free functions: (a) all triples of two-parameter candidates over {int,float}×{in,out} (16 signatures, 560 triples) × 36 tuples of l-values, r-values and both literals [thorough: also {int,uint,float} and {half,float,double}, 36 signatures, 7140 triples each, × 25 tuples of l-values and literals]; (b) all subsets of 4 and 5 of the 6 signatures {int,float,out float}×{int,float} [thorough: 9 signatures {int,float,out float}²] × 16 tuples × 24 / 120 orders; (c) all 560 triples over {int,float}×widths{2,3} squared [thorough: widths {2,3,4}, 7140 triples] × l-values of the same types; (d) triples of candidates of different arity over {int,float} (1, 2 and 3 `in` parameters; quick: the 60 triples with exactly two 2-parameter candidates, thorough: all 364) called with 1, 2 and 3 arguments (84 tuples); (e) triples of three-parameter candidates over {int,float,out float} (quick: `out` only in the first position, 220 triples; thorough: 2925) × 8 l-value tuples; (f) triples of two-parameter methods, called as s.f(a,b) and unqualified from a sibling method (quick 20, thorough 560 triples) × 16 tuples. A candidate of another arity is taken to be not viable (there are no default arguments in the space). Oracles 1-3 apply unchanged; oracle 1 compares the full verdict including whether a rejection is 'ambiguous' or 'unmatched' (the property names both), which of the two a given rejection should be is NOT demanded".into(),
-        "outside the space: inout parameters, matrices, arrays, qualified (const/volatile) arguments, default arguments, templates, static methods, inherited/templated structs, namespaces/using, more than one differently named declaration inside an overload group, data members between methods; candidates have bodies; r-values are results of declared-only helper functions; untyped literals are `0` and `0.0`".into(),
+        "argument expression and declaration dimensions (phase 1c), all compared on the statement's 'depends only on the set of visible candidates and the argument types': (a) LITERAL SPELLING - the type of a literal is taken to be decided by its suffix alone (rssl's lexer: unsuffixed integer = untyped int literal whatever the radix and value); classes int-unsuffixed and int-u-suffix: the values 0, 2^k-1, 2^k, 2^k+1 for every bit position k = 1..32 (u-suffix: up to 2^32-1) in decimal, hexadecimal and octal [quick: hexadecimal for all values, decimal and octal for k >= 31], classes float-unsuffixed and float-f-suffix: 6 mantissa/exponent forms; every spelling × every single `in` candidate over the 24 types and every pair over scalar kinds × widths {1,2} [thorough: all 276 pairs over the 24 types] × both orders must give the verdict of the class's first spelling (`0`, `0u`, `0.0`, `0.0f`); literals of DIFFERENT classes are not compared. (b) SWIZZLE ARGUMENTS - `v.<s>` for every swizzle s of length 1-4 over the components of a float4 variable (340 swizzles) [thorough: int, uint, float, double × widths 4, 3, 2 × a variable and the result of a call]; its type is <kind><length> and it is taken to be an l-value exactly when the base is a variable and no component is named twice (documented on ir::get_swizzle_value_type); every single candidate and every pair over {that kind, one other kind} × widths {length, length-1} × {in, out} (8 parameter types, 36 sets per length) × both orders must give the verdict measured in phases 0/1 for the plain variable / helper call of the same type and value category (this includes the exact-match clause: f(T) next to f(out T) with a value argument of type T). (c) PROTOTYPES AND TRAILING DEFAULT PARAMETERS - candidate shapes f(T), f(T,T), f(T,T = default) over {int,float} [thorough: {int,float,double}]: every set of 1 and 2 candidates [thorough: also 3 over {int,float}] with distinct parameter types; every candidate declared by a definition only, or by a prototype and a later definition with the default value on the prototype only or on both; every interleaving of the declarations (prototype before its definition); the call after every declaration from which on all candidates are visible; 1 and 2 arguments over l-values of those kinds and the int literal [thorough, 1-2 candidates: also r-values and the float literal]: one verdict per (candidate set, argument tuple). A candidate counts as visible with its default value from its first declaration on; a default value that appears only on a definition that follows a prototype without it is NOT in the space (what is visible between the two is unclear). Exact match there: the unique candidate with as many parameters as arguments and equal types must be selected, except when a longer candidate with a defaulted last parameter has the same leading types (left out, counted in exact_match_excluded_default_twin)".into(),
+        "outside the space: inout parameters, matrices, arrays, qualified (const/volatile) arguments, default arguments other than one trailing default of a free function, templates, static methods, inherited/templated structs, namespaces/using, more than one differently named declaration inside an overload group, data members between methods; candidates have bodies (prototypes only in phase 1c); r-values are results of declared-only helper functions (and repeated-component swizzles in phase 1c); untyped literals are `0` and `0.0` outside phase 1c; literal suffixes other than u and f, negative literals, integer literals above 2^32+1, swizzles of scalars and rgba swizzles are not enumerated".into(),
         "method spaces: quick = method pairs over all 24 types, method triples / method-internal pairs+triples / interleaved free pairs+triples over the 6 scalar types, every 16th pair of two-parameter scalar methods; thorough = method and method-internal pairs and triples over all 24 types, method sets of 4 over the scalars, all 630 pairs of two-parameter scalar methods".into(),
         "2 parameters: `in` parameters over scalars × dims {1,2,4} (thorough; quick {1,2}) plus the {int,float}×{in,out} family with l-value/r-value/literal arguments; 3 parameters: pairs over 5 scalar types bool,int,half,float,double (quick: 4, without double); sets of 4-5 candidates: one scalar parameter, every subset of the 6 scalar types, every permutation".into(),
     ];
@@ -2029,6 +2754,49 @@ pub fn replay(ctx: &Ctx, body: &str) -> i32 {
                         });
                     }
                 }
+            }
+        }
+        "kind: spelling" | "kind: swizzle" | "kind: proto" => {
+            let field = |name: &str| rest.lines().find_map(|l| l.strip_prefix(name).map(|v| v.trim().to_string()));
+            let cands = field("cands:").unwrap_or_default();
+            match kind.trim() {
+                "kind: spelling" => {
+                    let classes = lit_classes(true);
+                    match (parse_cands(&cands), classes.iter().find(|c| Some(c.name.to_string()) == field("class:"))) {
+                        (Some(set), Some(class)) => check_spellings(&set, class, &mut acc),
+                        _ => {
+                            eprintln!("machinery error: malformed spelling case");
+                            return 2;
+                        }
+                    }
+                }
+                "kind: swizzle" => {
+                    let b = field("base:").unwrap_or_default();
+                    let len: usize = field("len:").and_then(|l| l.parse().ok()).unwrap_or(0);
+                    let ty = b.split(':').nth(1).and_then(parse_ty);
+                    match (parse_cands(&cands), ty) {
+                        (Some(set), Some(ty)) if (1..=4).contains(&len) && set.iter().all(|c| c.len() == 1) && set.len() <= 2 => {
+                            let base = Base::new(true);
+                            check_swizzles(&base, &set, (ty / 4) as usize, DIMS[(ty % 4) as usize], b.starts_with("L:"), len, &mut acc);
+                        }
+                        _ => {
+                            eprintln!("machinery error: malformed swizzle case");
+                            return 2;
+                        }
+                    }
+                }
+                _ => match parse_dcs(&cands) {
+                    Some(set) => {
+                        let mut kinds: Vec<usize> = set.iter().flat_map(|c| c.params.iter().map(|p| (p_ty(*p) / 4) as usize)).collect();
+                        kinds.sort();
+                        kinds.dedup();
+                        check_protos(&set, &proto_tuples(&kinds, true), &mut acc);
+                    }
+                    None => {
+                        eprintln!("machinery error: malformed proto case");
+                        return 2;
+                    }
+                },
             }
         }
         k => {
